@@ -165,6 +165,20 @@ def _build(sg, kind, n):
         y = T(np.array([1.0, -2.0]), requires_grad=True)
         for _ in range(n): y = y * 1.0001
         return y, n
+    if kind == "chain_retain_each":          # every intermediate result asked to keep its gradient
+        y = T(np.array([1.0, -2.0]), requires_grad=True)
+        for _ in range(n):
+            y = y * 1.0001; y.retain_grad()
+        return y, n
+    if kind == "chain_built_under_retain_grads":   # graph built inside retain_grads, back-propagated outside
+        y = T(np.array([1.0, -2.0]), requires_grad=True)
+        with sg.retain_grads():
+            for _ in range(n): y = y * 1.0001
+        return y, n
+    if kind == "chain_from_many_leaves":     # every step brings in a new leaf (parameters of a deep model)
+        y = T(np.array([1.0, -2.0]), requires_grad=True)
+        for i in range(n): y = y * T(np.array([1.0001, 0.9999]), requires_grad=True)
+        return y, n
     if kind == "ladder":
         y0 = T(np.array([1.0, 2.0]), requires_grad=True); y1 = T(np.array([-1.0, 0.5]), requires_grad=True)
         for _ in range(n): y0, y1 = y1, y0 * 0.5 + y1 * 0.5
@@ -207,8 +221,36 @@ def judge_cost(case):
         viol.append({"kind": f"{kind}:superlinear-cost", "detail": f"call events inside backward for sizes {n},{2 * n},{4 * n}: {work}; increment ratio {d2 / max(d1, 1):.2f} (linear = 2.0)"})
     return {"nontrivial": True, "outcome": "ok", "violations": viol}
 
+def judge_cputime(case):
+    """work done inside C loops (scanning a list of tensors, say) raises no call events; this second cost measure is the CPU time of
+    the calling thread (not wall clock; garbage collector off; minimum of 3 runs) at sizes n, 2n, 4n.  Linear cost doubles the
+    increment, quadratic cost quadruples it; flagged only when the increment more than triples AND the excess over linear is at
+    least 0.2 s of CPU, so scheduling noise cannot trip it."""
+    import time, gc
+    sg = harness.load(); harness.reset_modes(verify=False)
+    kind, n = case["shape"], case["n"]
+    best = []
+    for size in (n, 2 * n, 4 * n):
+        ts = []
+        for rep in range(3):
+            root, nops = _build(sg, kind, size)
+            g = sg.Tensor(np.ones(root.shape))
+            gc.collect(); gc.disable()
+            try:
+                t0 = time.thread_time(); root.backward(g); ts.append(time.thread_time() - t0)
+            finally:
+                gc.enable()
+            root = None
+        best.append(min(ts))
+    d1, d2 = best[1] - best[0], best[2] - best[1]
+    viol = []
+    if d2 > 3.0 * max(d1, 1e-9) and d2 - 2.0 * d1 > 0.2:
+        viol.append({"kind": f"{kind}:superlinear-cpu-time", "detail": f"CPU seconds inside backward for sizes {n},{2 * n},{4 * n}: {[round(b, 3) for b in best]}; "
+                     f"increment ratio {d2 / max(d1, 1e-9):.2f} (linear = 2.0, quadratic = 4.0)"})
+    return {"nontrivial": True, "outcome": "ok", "violations": viol, "_cpu": best}
+
 def dispatch(case):
-    return judge_cost(case) if case["kind"] == "cost" else judge(case)
+    return judge_cost(case) if case["kind"] == "cost" else judge_cputime(case) if case["kind"] == "cputime" else judge(case)
 
 def all_cases(tier):
     sizes = SIZES_Q if tier == "quick" else SIZES_T
@@ -222,9 +264,11 @@ def all_cases(tier):
             if kind == "ladder" and n > 20000: continue
             if kind.startswith("untracked_layer_chain") and n not in (100, 1000): continue
             out.append({"kind": kind, "n": n})
-    for shape in ("chain", "ladder", "tree", "fanin", "fanin_stack_computed"):
+    for shape in ("chain", "ladder", "tree", "fanin", "fanin_stack_computed", "chain_retain_each", "chain_built_under_retain_grads", "chain_from_many_leaves"):
         for n in ((100, 250) if tier == "quick" else (100, 250, 600)):
             out.append({"kind": "cost", "shape": shape, "n": n})
+    for shape in ("chain", "chain_retain_each", "chain_built_under_retain_grads", "chain_from_many_leaves", "ladder"):
+        out.append({"kind": "cputime", "shape": shape, "n": 4000 if shape != "ladder" else 2000})
     return out
 
 def replay(case):
